@@ -455,8 +455,18 @@ def run_converter_special(ctx, rng, which, ids):  # noqa: C901
         const = rng.choice(HOSTILE_CONSTANTS)
         s_ = make_dataclass("S", [("a", int)])
         d_ = make_dataclass("D", [("a", int), ("c", typing.Any)])
-        with AU.armed():
-            made = attempt(get_converter, s_, d_, recipe=[link_constant("c", value=const)])
+        if rng.random() < 0.4:
+            # the same hostile value as the DEFAULT of an extra converter parameter (defect #69: the header was built with str(signature))
+            from adaptix.conversion import from_param  # noqa: PLC0415
+
+            def stub(s, k=const): ...
+            stub.__annotations__ = {"s": s_, "return": d_}
+            with AU.armed():
+                made = attempt(lambda: impl_converter(recipe=[link(from_param("k"), P[d_].c)])(stub))
+            desc["as"] = "parameter-default"
+        else:
+            with AU.armed():
+                made = attempt(get_converter, s_, d_, recipe=[link_constant("c", value=const)])
         src = s_(0)
 
         def check(o):
